@@ -44,6 +44,8 @@ fn main() {
             let known = KnownFindings::load();
             let t0 = std::time::Instant::now();
             let report = match id {
+                "C01" => checks::c01::run(tier, seed, &known),
+                "C02" => checks::c02::run(tier, seed, &known),
                 "C03" => checks::c03::run(tier, seed, &known),
                 _ => {
                     eprintln!("harness error: no check for {id}");
@@ -73,6 +75,11 @@ fn main() {
             };
             let res = match file.world.as_str() {
                 "engine-programs" => replay_text(&checks::c03::C03World { real_conds: 0.0, loggers: false }, &text),
+                "registry-histories" => replay_text(&checks::c01::Histories, &text),
+                "registry-in-programs" => replay_text(&checks::c01::ScopedPrograms, &text),
+                "guard-histories" => replay_text(&checks::c02::Guards, &text),
+                "multi-borrow" => replay_text(&checks::c02::Multi, &text),
+                "holding-histories" => replay_text(&checks::c02::Holding, &text),
                 other => {
                     eprintln!("harness error: unknown world {other}");
                     std::process::exit(2);
